@@ -46,8 +46,9 @@ def is_date(s: str) -> Optional[date]:
     try:
         d1 = dateutil.parser.parse(s, default=_check_values_date[0])
         d2 = dateutil.parser.parse(s, default=_check_values_date[1])
-    except OverflowError as e:
-        # dateutil raises it for too large numbers; the callers expect ValueError for anything unparsable
+    except ArithmeticError as e:
+        # dateutil raises OverflowError or decimal.InvalidOperation for too large numbers;
+        # the callers expect ValueError for anything unparsable
         raise ValueError(str(e)) from e
     return None if d1 == d2 else d1.date()
 
@@ -68,7 +69,7 @@ def is_time(s: str) -> Optional[time]:
     try:
         d1 = dateutil.parser.parse(s, default=_check_values_time[0])
         d2 = dateutil.parser.parse(s, default=_check_values_time[1])
-    except OverflowError as e:
+    except ArithmeticError as e:
         raise ValueError(str(e)) from e
     return None if d1 == d2 else d1.time()
 
